@@ -75,6 +75,11 @@ CHECKS["C15"] = ("exploration",
     "d<=3 with ALL non-empty feature masks (+None) x n_cuts 1..3 x temperatures {10,1,0.1,0.02} x ALL storage orders of the cut-point vectors: masked columns are perturbed (bitwise-equal predictions), leaf count (n_cuts+1)^used, soft-bin and leaf memberships are probability vectors, and at temperature 0.02 two probe points in every grid cell (cell = number of cut points below the value, per feature) must get the same prediction. find_active_points is compared with its definition for ALL cut vectors over a menu (including cuts equal to the feature's min/max) against data of known range.",
     "Cut points are set on the fitted attribute to enumerate orders; cells narrower than 1.0 are not probed.",
     "5/C15")
+CHECKS["C04"] = ("exploration",
+    "deviation-bounded exhaustive enumeration of estimator configurations (all 18 estimators, every single-axis deviation, coupled/all axis pairs) x data shapes x input forms on the real fit, with an independent coherence oracle",
+    "For each of the 18 estimators and data shapes (3,1),(4,2),(6,3): the default configuration in five input forms, every configuration with one documented-valid parameter value deviating (13 GEMINI names, instances, None, solver, every batch size 1..n+1, every n_clusters 1..n, kernel/metric menus with parameters/callables/precomputed, ovo, reg, groups, alpha, M, dynamic, n_cuts, temperature, feature_mask, tree limits) and two deviations on coupled axes (all axis pairs in thorough) are fitted for real: no exception, labels_ shape/range, predict_proba rows are probability vectors, predict = argmax = labels_, score = reference GEMINI (oracles/gemini.py) of predict_proba on the given data, n_iter_/optimiser_ reflect max_iter/solver, Kauri labels in range with a tree and score = objective.",
+    "Bounded to n<=6, d<=3 and deviation bound 1-2 from a small default configuration.",
+    "5/C04")
 NOT_APPLICABLE = {}
 
 def main():
